@@ -34,6 +34,9 @@ void harness(void) {
 void harness(void) {
   SETUP();
   uint64_t nd = nondet_u64();
+#ifdef CTOR_ARG_BOUND
+  __CPROVER_assume(nd <= CTOR_ARG_BOUND);
+#endif
   float ndf = nondet_float();
   double ndd = nondet_double();
   bool ndb = nondet_bool();
